@@ -12,6 +12,7 @@ from mon import refbufr as R
 from mon.compare import impl_subset, td_of, opsig, jsonable
 from mon.gen import cases
 from mon.gen.shapes import EdgePolicy
+from mon.gen.templates import scoped
 
 ID = 'C06'
 LEVEL = 'exploration'
@@ -26,7 +27,7 @@ ASSUMPTIONS = ['R concatenates per-subset bit strings, each produced from fresh 
 BUDGET = {'quick': 45, 'thorough': 600}
 QUOTA = {'quick': 260, 'thorough': 4500}
 REQUIRED = {'quick': {'evaluations': 1500, 'open_operator_cases': 200, 'bitmap_cases': 150,
-                      'permutations_checked': 2000, 'differing_length_cases': 300},
+                      'permutations_checked': 2000, 'differing_length_cases': 300, 'compiled_joint_decodes': 100},
             'thorough': {'evaluations': 30000, 'open_operator_cases': 3000, 'bitmap_cases': 3000,
                          'permutations_checked': 50000, 'differing_length_cases': 5000}}
 
@@ -46,6 +47,11 @@ OPEN_SHAPES = [
     ('cancel-235-237255', [1001, 12001, 223000, 236000, 101000, 31001, 31031, 101000, 31001, 223255,
                            237255, 235000, 4024]),
     ('open-206', [12001, 1001, 206008]),
+    # closed constructs (within C08's proviso: also decoded with compilation on)
+    ('closed-delayed-before-bitmap', [101000, 31001, 12001, 1001, 222000, 101000, 31001, 31031, 101000, 31001, 33007, 235000]),
+    ('closed-two-delayed-before-markers', [101000, 31001, 12001, 101000, 31001, 13011, 10004, 224000, 101000, 31001, 31031, 8023,
+                                           101000, 31001, 224255]),
+    ('closed-203-201', [203012, 12001, 203255, 201130, 12001, 201000, 12001, 203000, 101000, 31001, 12001]),
 ]
 
 
@@ -88,7 +94,7 @@ def features(msg):
     return f
 
 
-def check_case(ctx, dec, enc, msg, origin, name=None):
+def check_case(ctx, dec, enc, msg, origin, name=None, decc=None, Dtab=None):
     spec = dict(origin=origin, shape=name, ids=msg.ids, nsub=msg.nsub, edition=msg.edition,
                 hex=msg.bytes.hex())
     n = msg.nsub
@@ -143,6 +149,31 @@ def check_case(ctx, dec, enc, msg, origin, name=None):
                             'subset decoded alone; ops[%s]' % (k, pos, order, why, opsig(msg.ids)),
                             dict(spec, order=order))
                 return
+    # the same independence with template compilation on (only where compilation is claimed to preserve
+    # behaviour at all: templates whose operators are closed within one replication scope, C08's proviso)
+    if decc is not None and Dtab is not None and scoped(msg.ids, Dtab):
+        for order in orders[:1] + orders[-1:]:
+            jm = msg if order == tuple(range(n)) else R.select_subsets(msg, list(order))
+            ctx.count('compiled_joint_decodes')
+            try:
+                snap = snapshot(decc.process(jm.bytes))
+            except Exception as e:
+                ctx.violate('compiled/joint-decode-raises:%s' % type(e).__name__,
+                            'subsets decode alone but the joint message (order %r) raises %s with template compilation on: %s'
+                            % (order, type(e).__name__, str(e)[:120]), dict(spec, order=order, compiled=True), exc=e)
+                break
+            bad = [pos for pos, k in enumerate(order) if pos >= len(snap) or snap[pos] != singles[k]]
+            if bad:
+                pos = bad[0]
+                got = snap[pos] if pos < len(snap) else None
+                k = order[pos]
+                why = 'missing' if got is None else ('labels' if got[0] != singles[k][0] else 'values' if got[1] != singles[k][1]
+                                                     else 'links' if got[2] != singles[k][2] else 'nested')
+                ctx.violate('compiled/joint-differs-from-alone/%s/pos%s' % (why, 'first' if pos == 0 else 'later'),
+                            'with template compilation on, subset %d at position %d of order %r decodes differently (%s) from '
+                            'the same subset decoded alone; ops[%s]' % (k, pos, order, why, opsig(msg.ids)),
+                            dict(spec, order=order, compiled=True))
+                break
     # encoding: joint vs singles (through R's bytes)
     try:
         ok_single = True
@@ -173,6 +204,7 @@ def run(ctx):
     from pybufrkit.decoder import Decoder
     from pybufrkit.encoder import Encoder
     dec, enc = Decoder(), Encoder()
+    decc = Decoder(compiled_template_cache_max=4)
     B, D = cases.tables(33)
     # mandatory open-construct shapes
     n = 0
@@ -190,7 +222,7 @@ def run(ctx):
                     continue
                 ctx.count('shape_cases')
                 ctx.add('shapes', name)
-                check_case(ctx, dec, enc, msg, 'shape', name)
+                check_case(ctx, dec, enc, msg, 'shape', name, decc, D)
     k = 0
     while k < QUOTA[ctx.tier] and ctx.more():
         k += 1
@@ -206,7 +238,7 @@ def run(ctx):
             continue
         if too_wide(msg):
             continue
-        check_case(ctx, dec, enc, msg, 'random')
+        check_case(ctx, dec, enc, msg, 'random', None, decc, Dv)
 
 
 def replay(ctx, case):
